@@ -30,12 +30,12 @@ theorem flat_frame (F : Funs) (stmts : List Stmt) (x : Name) : ∀ (pre : List N
   | nil => intro σ _; rfl
   | cons i pre ih =>
     intro σ h
-    unfold flatExec
+    rw [flatExec_def]
     simp only [List.foldl_cons]
-    have h' := ih (match stmts[i]? with | some s => (execI F s σ).σ | none => σ)
-      (fun k hk st hst => h k (List.mem_cons_of_mem _ hk) st hst)
-    unfold flatExec at h'
+    have h' := ih (flatStep F stmts σ i) (fun k hk st hst => h k (List.mem_cons_of_mem _ hk) st hst)
+    rw [flatExec_def] at h'
     refine h'.trans ?_
+    unfold flatStep
     cases hs : stmts[i]? with
     | none => rfl
     | some st => exact C08.stmt_frame F st σ x (h i List.mem_cons_self st hs)
